@@ -166,9 +166,11 @@ def decide(harness, *, allowed_exc=(), on_raise=None, timeout_ms=20000, budget_s
             detail = val.get("detail")
             val = val["prop"]
         prop = symx.as_z3_bool(val)
-        if res["witness"] is None:
-            # reachability witness (vacuity guard): the path condition itself must be satisfiable
-            r0, m0 = solve(p.pc + extra, timeout_ms, stats, use_cvc5=False)
+        if res["witness"] is None and res.get("witness_tries", 0) < 4:
+            # reachability witness (vacuity guard): the path condition itself must be satisfiable (every prefix was already
+            # found satisfiable by the explorer at its last fork; this asks for a model of the whole path, under a short cap)
+            res["witness_tries"] = res.get("witness_tries", 0) + 1
+            r0, m0 = solve(p.pc + extra, min(timeout_ms, 4000), stats, use_cvc5=False)
             if r0 == "sat":
                 res["witness"] = model_inputs(m0, p.named)
         sp = z3.simplify(prop)
